@@ -16,7 +16,7 @@ import vcommon
 from vcommon import VERIF
 
 PROPS = ["Bee2V/C01/Props.lean"]
-for _f in ("PropsModes", "PropsStream", "PropsAead", "PropsWbl", "PropsFmt", "PropsLcl", "PropsSpec", "PropsChunk", "PropsFmt2", "PropsPoly", "PropsSpecHash", "PropsTag", "PropsFmt3"):
+for _f in ("PropsModes", "PropsStream", "PropsAead", "PropsWbl", "PropsFmt", "PropsLcl", "PropsSpec", "PropsChunk", "PropsFmt2", "PropsPoly", "PropsSpecHash", "PropsTag", "PropsFmt3", "PropsWblR"):
     if os.path.exists(os.path.join(VERIF, "lean", "Bee2V", "C01", _f + ".lean")) and _f not in os.environ.get("C01_SKIP_PROPS", "").split(","):
         PROPS.append("Bee2V/C01/%s.lean" % _f)
 
@@ -759,6 +759,14 @@ def search(ctx, exe, w, n=150, focus=None, differing=()):
         if got != want.replace("-", ""):
             found.append(("fragments:" + a.split()[0], "same\n%s\n%s\n%s\n" % (a, b, kind),
                           "fragmented processing differs from one-shot: %s -> %s ; %s -> %s" % (a[:120], x[:60], b[:80], y[:60])))
+    # continued WBL encryption entered with round 0 is plain WBL encryption (Base and Opt paths)
+    rp = []
+    for n in (32, 47, 48, 64, 80, 96, 100):
+        k, b = g.key(), g.rb(n)
+        rp.append(("wbl R %s 0 %s" % (hx(k), hx(b)), "wbl E %s 0 %s" % (hx(k), hx(b))))
+    for (a, b), x, y in zip(rp, run([a for a, _ in rp]), run([b for _, b in rp])):
+        if x != y:
+            found.append(("wbl:stepR", "same\n%s\n%s\nexact\n" % (a, b), "beltWBLStepR from round 0 differs from beltWBLStepE: %s -> %s / %s" % (a[:100], x[:50], y[:50])))
     hp = []
     for n in (0, 5, 16, 31):
         kk = g.rb(n) if n else b""
